@@ -121,7 +121,9 @@ def check_case(case, acc):
     k, kind, enc = case['k'], case['kind'], case['enc']
     acc.case((case['n'], k, kind, enc, case['blocked'], case.get('style')), nontrivial=True,
              outcome=kind if not kind.startswith('mut:') else 'mutation')
-    rd = mciipm.IpmReader(io.BytesIO(data), encoding=enc, blocked=case['blocked'])
+    from vf import fileobjs
+    src, _done = fileobjs.reader(('bytesio', 'pipe', 'minimal')[len(data) % 3], data)
+    rd = mciipm.IpmReader(src, encoding=enc, blocked=case['blocked'])
     got = []
     err = None
     style = case.get('style', 'for')
